@@ -97,4 +97,13 @@ class Contract:
         self.next_hook = None
         self.nested_models = {}
         self.slice_hook = None
+        import sys as _sys
+        self.module = None
+        f = _sys._getframe(1)
+        while f is not None:
+            mn = f.f_globals.get("__name__", "")
+            if mn.startswith("contracts."):
+                self.module = mn
+                break
+            f = f.f_back
         REGISTRY.append(self)
